@@ -19,12 +19,14 @@ import (
 
 	"github.com/bufbuild/buf/private/buf/bufgen"
 	"github.com/bufbuild/buf/private/buf/bufprotopluginexec"
+	bufcli "github.com/bufbuild/buf/private/buf/cmd/buf"
 	"github.com/bufbuild/buf/private/bufpkg/bufconfig"
 	"github.com/bufbuild/buf/private/bufpkg/bufimage"
 	"github.com/bufbuild/buf/private/bufpkg/bufmodule"
 	"github.com/bufbuild/buf/private/bufpkg/bufparse"
 	"github.com/bufbuild/buf/private/gen/data/datawkt"
 	"github.com/bufbuild/buf/private/pkg/app"
+	"github.com/bufbuild/buf/private/pkg/app/appcmd"
 	"github.com/bufbuild/buf/private/pkg/osext"
 	"github.com/bufbuild/buf/private/pkg/slogext"
 	"github.com/bufbuild/buf/private/pkg/storage"
@@ -117,6 +119,9 @@ type gsim struct {
 	completion []int
 	clean      bool
 	cwdMode    bool
+	// viaCLI: the generation runs through the real `buf generate` command on the workspace written
+	// to disk (template file, -o, --path / --exclude-path, --include-imports / --include-wkt)
+	viaCLI bool
 	// overrides given on the command line (nil: none)
 	importsOverride *bool
 	wktOverride     *bool
@@ -543,6 +548,45 @@ func applyInsertion(target, point, content string) string {
 	return strings.TrimRight(strings.Join(out, "\n"), "\n")
 }
 
+// generateViaCLI runs the real `buf generate` command in-process: it reads the workspace from disk,
+// builds the image itself, reads the template from a file and takes the overrides as flags.
+func (m *gsim) generateViaCLI(ctx context.Context, template, baseOut string) error {
+	root := filepath.Join(m.env.Scratch, "cli", "ws")
+	dirs := m.ws.WriteV2Dir(root, func(path string, data []byte) {
+		if err := os.MkdirAll(filepath.Dir(path), 0o755); err != nil {
+			panic(err)
+		}
+		if err := os.WriteFile(path, data, 0o644); err != nil {
+			panic(err)
+		}
+	})
+	templatePath := filepath.Join(m.env.Scratch, "cli", "buf.gen.yaml")
+	if err := os.WriteFile(templatePath, []byte(template), 0o644); err != nil {
+		panic(err)
+	}
+	args := []string{"buf", "generate", root, "--template", templatePath}
+	if !m.cwdMode {
+		args = append(args, "-o", baseOut)
+	}
+	for _, f := range m.ws.PathFlags(root, dirs) {
+		args = append(args, f[0], f[1])
+	}
+	if m.importsOverride != nil {
+		args = append(args, fmt.Sprintf("--include-imports=%v", *m.importsOverride))
+	}
+	if m.wktOverride != nil {
+		args = append(args, fmt.Sprintf("--include-wkt=%v", *m.wktOverride))
+	}
+	var stdout, stderr bytes.Buffer
+	env := map[string]string{"HOME": filepath.Join(m.env.Scratch, "cli", "home"), "BUF_CACHE_DIR": filepath.Join(m.env.Scratch, "cli", "cache"), "PATH": ""}
+	container := app.NewContainer(env, strings.NewReader(""), &stdout, &stderr, args...)
+	if err := appcmd.Run(ctx, container, bufcli.NewRootCommand("buf")); err != nil {
+		return fmt.Errorf("%w (stderr: %s)", err, strings.ReplaceAll(stderr.String(), m.env.Scratch, "<scratch>"))
+	}
+	m.s.Probe("generated-through-the-command-line")
+	return nil
+}
+
 // Run is one simulated generation.
 func Run(tp *tape.Tape, env *engine.Env) *engine.Outcome {
 	s := sched.New(tp)
@@ -564,6 +608,7 @@ func Run(tp *tape.Tape, env *engine.Env) *engine.Outcome {
 	// sometimes the project directory is the working directory and the base out directory is ".":
 	// a relative and an absolute out can then be the same directory
 	m.cwdMode = tp.Draw("g.cwd", 3) == 2
+	m.viaCLI = m.ws.CLIUsable() && tp.Draw("g.cli", 4) == 3
 	for _, target := range []**bool{&m.importsOverride, &m.wktOverride} {
 		switch tp.Draw("g.override", 4) {
 		case 2:
@@ -573,6 +618,11 @@ func Run(tp *tape.Tape, env *engine.Env) *engine.Outcome {
 			v := false
 			*target = &v
 		}
+	}
+	if m.viaCLI && m.wktOverride != nil && *m.wktOverride && (m.importsOverride == nil || !*m.importsOverride) {
+		// the command refuses --include-wkt without --include-imports
+		v := true
+		m.importsOverride = &v
 	}
 	yaml := m.drawPlugins()
 	genFile, err := bufconfig.ReadBufGenYAMLFile(strings.NewReader(yaml))
@@ -632,6 +682,10 @@ func Run(tp *tape.Tape, env *engine.Env) *engine.Outcome {
 		baseOut := m.base
 		if m.cwdMode {
 			baseOut = "."
+		}
+		if m.viaCLI {
+			genErr = m.generateViaCLI(ctx, yaml, baseOut)
+			return
 		}
 		opts := []bufgen.GenerateOption{bufgen.GenerateWithBaseOutDirPath(baseOut)}
 		if m.importsOverride != nil {
